@@ -89,6 +89,11 @@ def prog(expr, var):
             % (var, expr, var, var))
 
 
+# operand forms: variables, and temporaries holding the same values (operators may build their result in a temporary operand)
+FORMS_I = [("a", "b"), ("(a + 0)", "(b + 0)"), ("(a + 0)", "b"), ("a", "(b + 0)")]
+FORMS_D = [("a", "b"), ("(a * 1.0)", "(b * 1.0)"), ("(a * 1.0)", "b"), ("a", "(b * 1.0)")]
+
+
 def gen_factory(tier):
     LI = int_lattice(tier)
     LD = dec_lattice(tier)
@@ -101,12 +106,13 @@ def gen_factory(tier):
         # integer pairs
         for a in LI:
             for b in LI:
-                ops = [op_ctx(), op_setvar("A", ispec(a)), op_setvar("B", ispec(b))]
-                for k, o in enumerate(BIN_INT):
-                    ops.append(op_run(prog("a %s b" % o, "r%d" % k)))
-                ops.append(op_dump())
-                yield Case("ii%d" % n, ops, {"kind": "ii", "a": a, "b": b})
-                n += 1
+                for fi, (fa, fb) in enumerate(FORMS_I):
+                    ops = [op_ctx(), op_setvar("A", ispec(a)), op_setvar("B", ispec(b))]
+                    for k, o in enumerate(BIN_INT):
+                        ops.append(op_run(prog("%s %s %s" % (fa, o, fb), "r%d" % k)))
+                    ops.append(op_dump())
+                    yield Case("ii%d" % n, ops, {"kind": "ii", "a": a, "b": b, "form": fi})
+                    n += 1
         # unary and conversions on integers
         for a in LI:
             ops = [op_ctx(), op_setvar("A", ispec(a))]
@@ -131,22 +137,25 @@ def gen_factory(tier):
         # decimal pairs and mixed
         for a in LD:
             for b in LD:
-                ops = [op_ctx(), op_setvar("A", dspec(a)), op_setvar("B", dspec(b))]
-                for k, o in enumerate(BIN_DEC):
-                    ops.append(op_run(prog("a %s b" % o, "r%d" % k)))
-                ops.append(op_dump())
-                yield Case("dd%d" % n, ops, {"kind": "dd", "a": a.hex() if a == a else "nan", "b": b.hex() if b == b else "nan"})
-                n += 1
+                for fi, (fa, fb) in enumerate(FORMS_D):
+                    ops = [op_ctx(), op_setvar("A", dspec(a)), op_setvar("B", dspec(b))]
+                    for k, o in enumerate(BIN_DEC):
+                        ops.append(op_run(prog("%s %s %s" % (fa, o, fb), "r%d" % k)))
+                    ops.append(op_dump())
+                    yield Case("dd%d" % n, ops, {"kind": "dd", "a": a.hex() if a == a else "nan", "b": b.hex() if b == b else "nan", "form": fi})
+                    n += 1
         for a in mixed_i:
             for b in LD:
                 for order in (0, 1):
                     x, y = (ispec(a), dspec(b)) if order == 0 else (dspec(b), ispec(a))
-                    ops = [op_ctx(), op_setvar("A", x), op_setvar("B", y)]
-                    for k, o in enumerate(BIN_DEC):
-                        ops.append(op_run(prog("a %s b" % o, "r%d" % k)))
-                    ops.append(op_dump())
-                    yield Case("mx%d" % n, ops, {"kind": "id" if order == 0 else "di", "a": a, "b": b.hex() if b == b else "nan"})
-                    n += 1
+                    for fi in (0, 1):
+                        fa, fb = ("a", "b") if fi == 0 else (("(a + 0)", "(b * 1.0)") if order == 0 else ("(a * 1.0)", "(b + 0)"))
+                        ops = [op_ctx(), op_setvar("A", x), op_setvar("B", y)]
+                        for k, o in enumerate(BIN_DEC):
+                            ops.append(op_run(prog("%s %s %s" % (fa, o, fb), "r%d" % k)))
+                        ops.append(op_dump())
+                        yield Case("mx%d" % n, ops, {"kind": "id" if order == 0 else "di", "a": a, "b": b.hex() if b == b else "nan", "form": fi})
+                        n += 1
         # conversions on decimals
         for a in LD:
             ops = [op_ctx(), op_setvar("A", dspec(a))]
@@ -302,10 +311,23 @@ def check(case, res):
         if want[0] == "d" and not same_double(g[1], want[1]):
             vs.append(Violation("%s:%s:value" % (opname, types), "%s on %s: expected %r, got %r" % (opname, m, want[1], g[1]), case))
 
+    if kind in ("ii", "dd", "id", "di"):
+        # the operands are variables (or temporaries made from them): no operator may change them
+        def orig(v):
+            if isinstance(v, int):
+                return ("i", v)
+            return ("d", float("nan") if v == "nan" else float.fromhex(v))
+        wa, wb = orig(m["a"]), orig(m["b"])
+        if kind == "di":
+            wa, wb = wb, wa
+        for name, w in (("A", wa), ("B", wb)):
+            g = parse_val(dump.get(name))
+            if g[0] != w[0] or (w[0] == "i" and g[1] != w[1]) or (w[0] == "d" and not same_double(g[1], w[1])):
+                vs.append(Violation("operand-changed:%s" % kind, "variable %s held %r before the operations and holds %r after (%s)" % (name, w, g, m), case))
     if kind == "ii":
         a, b = m["a"], m["b"]
         for k, o in enumerate(BIN_INT):
-            expect(k, o, "int,int", ref_int(o, a, b), 3)
+            expect(k, o, "int,int" + (":form%d" % m["form"] if m.get("form") else ""), ref_int(o, a, b), 3)
     elif kind == "li":
         a, b = m["a"], m["b"]
         for k, o in enumerate(["+", "-", "*", "/", "%"]):
@@ -327,7 +349,7 @@ def check(case, res):
         x = parse_val(da[0])[1]
         y = parse_val(da[1])[1]
         fx, fy = float(x), float(y)
-        tn = {"dd": "dec,dec", "id": "int,dec", "di": "dec,int"}[kind]
+        tn = {"dd": "dec,dec", "id": "int,dec", "di": "dec,int"}[kind] + (":form%d" % m["form"] if m.get("form") else "")
         for k, o in enumerate(BIN_DEC):
             zero_div = o in ("/", "%") and fy == 0.0
             expect(k, o, tn, ("d", fop(o, fx, fy)), 3, accept_dz=zero_div)
@@ -351,7 +373,8 @@ def run(tier):
     res = explore(PROP + "-" + tier, gen, check, chunk=200, deadline=t0 + (1500 if tier == "thorough" else 400))
     rule = ("product of the boundary lattice (integers: 0, +-1, 2^k, 2^k+-1, MIN/MAX neighbours, 10^k; shifts [-130,130]; "
             "doubles: +-0, subnormals, 2^53 and 2^63 neighbourhoods, DBL_MAX, inf, nan) over every arithmetic and bitwise operator, "
-            "operands bound exactly through the API, results read back as typed values and compared with the reference model; "
+            "operands bound exactly through the API and offered as variables and as temporaries of the same value (4 forms per pair; the variables must be "
+            "unchanged afterwards), results read back as typed values and compared with the reference model; "
             "a case is non-trivial when the driver returned a result for it (every case evaluates 2..13 operators)")
     return finish(PROP, tier, res, check, rule, t0,
                   assumptions=["reference model: Python exact integers, Python/libm IEEE doubles", "clang 14 ASan+UBSan",
